@@ -59,8 +59,12 @@ StreamCases == \A d \in StreamDigests : \A n \in {0, 1, 64, 65, 1000} : \A chunk
 HmacCases == \A d \in {"md5", "sha1", "sha224", "sha256", "sha384", "sha512"} : \A kl \in {0, 1, 63, 64, 65, 127, 128, 129, 200} : \A n \in {0, 1, 64, 1000} :
     Emit([fn |-> "hmac", s |-> <<>>, a |-> <<d, kl, n>>, out |-> <<>>])
 \* a stream that fails after some bytes must not influence a later call (sequence: failing stream, then a good one)
-StreamErrCases == \A d \in StreamDigests : \A n \in {1, 64, 100} : \A after \in {1, 63, 64} :
-    Emit([fn |-> "digeststreamerr", s |-> <<>>, a |-> <<d, n, after>>, out |-> <<>>])
+\* Whatever the error is (one of the io package's own sentinels - a truncated gzip stream fails with io.ErrUnexpectedEOF -
+\* or a foreign one), delivered alone or together with the last bytes: only io.EOF ends a stream, everything else is a
+\* failure of the digest, as it is for io.Copy into the hash.
+ErrKinds == {"custom", "unexpected_eof", "closed_pipe", "no_progress", "short_buffer", "wrapped_eof"}
+StreamErrCases == \A d \in StreamDigests : \A n \in {1, 64, 100} : \A after \in {0, 1, 63, 64} : \A ek \in ErrKinds : \A style \in {"separate", "with_data"} :
+    Emit([fn |-> "digeststreamerr", s |-> <<>>, a |-> <<d, n, after, ek, style>>, out |-> <<>>])
 \* (also encodings derived with WithPadding / Strict: they are no predefined value a helper could compare against)
 B64Cases == \A enc \in {"std", "url", "rawstd", "rawurl", "std-nopad", "url-nopad", "rawstd-strict", "std-star"} : \A n \in {0, 1, 2, 3, 4, 5, 6, 31, 32, 33} : \A bad \in {"none", "char", "trunc", "pad"} :
     Emit([fn |-> "base64", s |-> <<>>, a |-> <<enc, n, bad>>, out |-> <<>>])
